@@ -242,14 +242,14 @@ def _any_expr(e, p):
 
 
 def _exprs_of(op, inp):
-    if op == "history":
+    if op in ("history", "batchrace"):
         return list(inp.get("table") or [])
     return [inp.get("expr")]
 
 
 def _with_exprs(op, inp, f):
     o = copy.deepcopy(inp)
-    if op == "history":
+    if op in ("history", "batchrace"):
         o["table"] = [_map_expr(x, f) for x in (o.get("table") or [])]
     else:
         o["expr"] = _map_expr(o.get("expr"), f)
@@ -308,7 +308,29 @@ def _unstore(x):
     return x
 
 
+def _many_execute(x):
+    return x.get("k") == "batch" and sum(1 for m in (x.get("es") or []) if m.get("k") == "execute") >= 2
+
+
+def _one_execute(x):
+    if x.get("k") != "batch":
+        return x
+    x = dict(x)
+    seen = False
+    es = []
+    for m in x.get("es") or []:
+        if m.get("k") == "execute":
+            if seen:
+                m = {"k": "plain", "ps": ["ex%da" % m.get("n", 0), "ex%db" % m.get("n", 0)]}
+            seen = True
+        es.append(m)
+    x["es"] = es
+    return x
+
+
 ALG_CLASSES = [
+    AlgClass("batch_members_execute_embedded_commands", ("C09",), ("batchrace",), _many_execute, _one_execute,
+             "two Batch members that run embedded commands through ActionExecute at the same time: cobra keeps one global list of initializers and runs all of them on every Execute, so the bridge initializer of command A (registerFlagCompletion -> cmd.LocalFlags, the unsynchronised `entry.initialized` test in storage.bridge) runs in B's goroutine while A executes - data races on cobra's and carapace's per-command state (the candidates come out right)"),
     AlgClass("multiparts_drops_meta", ("C12", "C06"), ("invoke",),
              lambda x: x.get("k") == "multiParts" and _any_expr(x.get("e"), _makes_meta),
              _drop_meta_nodes,
